@@ -20,16 +20,46 @@ DrawSeq == ValidSeq \o <<Val("string", 4095, TRUE, 1), Val("string", 4097, TRUE,
                          Val("origin", 30, FALSE, 1), Val("origin", 1025, TRUE, 2), Val("u32", 1, TRUE, 0), Val("string", 40, TRUE, 2)>>
 State == [entry |-> entry, setter |-> setter, locker |-> locker]
 StateP == [entry |-> entry', setter |-> setter', locker |-> locker']
+(* Walk 1 is not random: a fixed script from the empty map that visits every limit from both sides with every
+   operation it applies to (payload 4095 / 4096 / 4097 / 6000 bytes, URL 1024 / 1025 / 5000 bytes well- and ill-formed,
+   origins, keys of 100 / 101 bytes with set / get / remove / lock, operations on locked present / absent entries,
+   role reassignment locking the owner out) - independent of the seed.                               *)
+All == {1, 2, 3}
+S(op, k, v, c) == [op |-> op, k |-> k, v |-> v, c |-> c]
+U32 == Val("u32", 1, TRUE, 0)
+Script == <<
+  S("set", "k1", Val("string", 4095, TRUE, 1), All), S("set", "k1", Val("string", 4096, TRUE, 2), All),
+  S("set", "k1", Val("string", 4097, TRUE, 1), All), S("set", "k1", Val("string", 6000, TRUE, 2), All),
+  S("set", "k2", Val("url", 1024, TRUE, 2), All), S("set", "k2", Val("url", 1025, TRUE, 1), All),
+  S("set", "k2", Val("url", 5000, TRUE, 1), All), S("set", "k2", Val("url", 5000, FALSE, 2), All),
+  S("set", "k2", Val("url", 30, FALSE, 1), All), S("set", "k2", Val("origin", 22, TRUE, 1), All),
+  S("set", "k2", Val("origin", 30, FALSE, 1), All), S("set", "k2", Val("origin", 1025, TRUE, 2), All),
+  S("set", "k100", U32, All), S("set", "k101", U32, All), S("set", "k101", Val("string", 4097, TRUE, 1), All),
+  S("get", "k100", NoVal, {}), S("get", "k101", NoVal, {}), S("remove", "k101", NoVal, All), S("lock", "k101", NoVal, All),
+  S("set", "k101", U32, All), S("lock", "k101", NoVal, All), S("remove", "k101", NoVal, All),
+  S("lock", "k100", NoVal, All), S("set", "k100", Val("string", 4096, TRUE, 1), All), S("remove", "k100", NoVal, All),
+  S("get", "k100", NoVal, {}), S("remove", "k1", NoVal, All), S("get", "k1", NoVal, {}), S("lock", "k1", NoVal, All),
+  S("set", "k1", U32, All), S("set", "k2", U32, {}), S("lock", "k2", NoVal, {2}),
+  S("assign_setter", "-", Val("u32", 2, TRUE, 0), {1}), S("set", "k2", U32, {1}), S("set", "k2", U32, {2}),
+  S("remove", "k2", NoVal, {2}), S("set", "k2", Val("url", 30, TRUE, 1), {2, 3}),
+  S("assign_locker", "-", Val("u32", 3, TRUE, 0), {2}), S("assign_locker", "-", Val("u32", 3, TRUE, 0), {1}),
+  S("lock", "k2", NoVal, {1}), S("lock", "k2", NoVal, {3}), S("remove", "k2", NoVal, {2}), S("get", "k2", NoVal, {}) >>
+Scripted == sd = 1
+Bound == IF Scripted THEN Len(Script) ELSE K
 GInit ==
   /\ sd \in 1..Walks /\ step = 0 /\ rs = Stream(sd)
-  /\ entry = [k \in Keys |->
+  /\ entry = IF Scripted THEN [k \in Keys |-> Absent] ELSE [k \in Keys |->
                 LET i == IF k = "k1" THEN 1 ELSE IF k = "k2" THEN 2 ELSE IF k = "k100" THEN 3 ELSE 4
                     present == i # 4 /\ rs[i] % 3 # 0
                 IN [present |-> present, val |-> IF present THEN ValidSeq[(rs[4 + i] % 7) + 1] ELSE NoVal,
                     locked |-> i # 4 /\ rs[8 + i] % 4 = 0]]
-  /\ setter = (IF rs[13] % 2 = 0 THEN 0 ELSE 2) /\ locker = (IF rs[14] % 2 = 0 THEN 0 ELSE 3)
+  /\ setter = (IF Scripted \/ rs[13] % 2 = 0 THEN 0 ELSE 2) /\ locker = (IF Scripted \/ rs[14] % 2 = 0 THEN 0 ELSE 3)
   /\ last = [op |-> "init", k |-> "-", v |-> NoVal, c |-> {}, class |-> "ok", out |-> NoVal]
   /\ hist = <<[e |-> last, st |-> State]>>
+ScriptAction(j) ==
+  LET x == Script[j]
+  IN CASE x.op = "set" -> Set(x.k, x.v, x.c) [] x.op = "remove" -> Remove(x.k, x.c) [] x.op = "lock" -> Lock(x.k, x.c)
+       [] x.op = "get" -> Get(x.k, x.c) [] OTHER -> Assign(x.op, x.v.size, x.c)
 StepAction(j) ==
   LET p == 16 + (j - 1) * 8
       k == KeySeq[(rs[p + 1] % 6) + 1]
@@ -41,9 +71,9 @@ StepAction(j) ==
      ELSE IF o <= 8 THEN Lock(k, c)
      ELSE IF o <= 10 THEN Get(k, c)
      ELSE Assign(IF rs[p + 6] % 2 = 0 THEN "assign_setter" ELSE "assign_locker", IF rs[p + 7] % 2 = 0 THEN 2 ELSE 3, c)
-GNext == /\ step < K /\ StepAction(step + 1)
+GNext == /\ step < Bound /\ (IF Scripted THEN ScriptAction(step + 1) ELSE StepAction(step + 1))
          /\ step' = step + 1 /\ sd' = sd /\ rs' = rs
          /\ hist' = Append(hist, [e |-> last', st |-> StateP])
 GSpec == GInit /\ [][GNext]_gvars
-Emit == step = K => PrintT(<<"B", ToJson(hist)>>)
+Emit == step = Bound => PrintT(<<"B", ToJson(hist)>>)
 =============================================================================
